@@ -108,6 +108,23 @@ Section At.
     end.
 End At.
 
+(* sizes, for induction over the mutually defined contexts *)
+Fixpoint ectx_size (C : ectx) : nat :=
+  match C with
+  | XHole => 1
+  | XVariant _ _ c _ | XCallF c _ _ | XCallA _ _ c _ _ | XAccess c _ _ | XIndexV c _ _ | XIndexI _ c _
+  | XBinL _ c _ _ | XBinR _ _ c _ | XUni _ c _ | XIfC _ c _ _ _ _ | XCaseM c _ _ _
+  | XBlob _ _ _ c _ _ _ | XColl _ _ c _ _ => S (ectx_size c)
+  | XIfB _ _ _ c _ _ _ _ | XCaseB _ _ _ _ _ _ c _ _ _ _ _ | XCaseF _ _ _ c _ _
+  | XFun _ _ _ _ c _ _ _ => S (sctx_size c)
+  end
+with sctx_size (C : sctx) : nat :=
+  match C with
+  | YHole => 1
+  | YAssignT _ c _ _ | YAssignV _ _ c _ | YDef _ _ _ _ c _ | YLoopC c _ _ | YRet c _ | YExpr c _ => S (ectx_size c)
+  | YLoopB _ _ c _ _ | YBlock _ c _ _ => S (sctx_size c)
+  end.
+
 (* program contexts: a hole somewhere inside the value of a top-level definition, or a top-level
    statement hole *)
 Inductive pctx :=
